@@ -355,7 +355,12 @@ impl Segments {
                     self.segments.push_back(s);
                     PopExpiredProbe::Empty
                 }
-                (true, true) if s.retransmit_count() >= max_probe_retransmissions => {
+                // The retransmit timer runs for the oldest unacked segment. Only if that is the
+                // probe itself (nothing else is queued before it) did the probe time out.
+                (true, true)
+                    if self.segments.is_empty()
+                        && s.retransmit_count() >= max_probe_retransmissions =>
+                {
                     // The probe's bytes go back to the unsegmented part of the TX buffer.
                     self.offset -= s.payload_size as u64;
                     self.len_bytes -= s.payload_size;
